@@ -4,7 +4,7 @@
 #include "view_put.h"
 namespace vf {
 #define VF_DESCRIBE_BEGIN(FN, Q) void FN(const Q& o, View& v) { (void)o; (void)v;
-#define VF_GET(Q, L, N) { static u64& c_ = vf::counter(#L "." #N); vf::get_one(v, #L "." #N, c_, [&](std::string& s_) { vf::put(s_, o.N()); }); }
+#define VF_GET(Q, L, N) { static u64& c_ = vf::counter(#L "." #N); vf::get_one(v, #L "." #N, c_, [&](std::string& s_) { vf::put_named(s_, #L "." #N, o.N()); }); }
 #define VF_DESCRIBE_END() }
 #define VF_GEN_DESCRIBE
 #include "gen_tins.inc"
